@@ -734,7 +734,7 @@ func (f *formatFMP4) initialize() bool {
 							return nil
 						}
 
-						var dt time.Duration
+						var dt int64
 
 						for _, frame := range u.Payload.(unit.PayloadMPEG1Audio) {
 							var h mpeg1audio.FrameHeader
@@ -754,15 +754,14 @@ func (f *formatFMP4) initialize() bool {
 								Sample: &fmp4.Sample{
 									Payload: frame,
 								},
-								dts: u.PTS + u.PTS,
-								ntp: u.NTP,
+								dts: u.PTS + dt,
+								ntp: u.NTP.Add(timestampToDuration(dt, clockRate)),
 							})
 							if err != nil {
 								return err
 							}
 
-							dt += time.Duration(h.SampleCount()) *
-								time.Second / time.Duration(h.SampleRate)
+							dt += int64(h.SampleCount()) * int64(clockRate) / int64(h.SampleRate)
 						}
 
 						return nil
